@@ -273,3 +273,152 @@ def selftest() -> int:
     if c.time() != 7.5:
         bad += 1
     return bad
+
+
+# ------------------------------------------------------------------------------------------------
+# file-system interposer with crash injection (engine E4)
+# ------------------------------------------------------------------------------------------------
+
+
+class Crash(BaseException):
+    """Process death injected by the explorer (BaseException: no `except Exception` in the code under test can swallow it)."""
+
+
+class FSInterposer:
+    """
+    Wraps every file-system mutation the process performs below `root`:
+      open(..., 'w'/'wb'/'a'...)  -> events  open / write#k / close
+      os.rename, os.replace, os.remove, os.unlink, shutil.move (via os)  -> one event each
+    Every event has two crash points: 'before' (the mutation does not happen) and 'after' (it happened, nothing later does).
+    For write events a crash 'during' leaves a torn file: only `torn(len)` bytes of that write reach the file.
+    crash_at = (event_index, when) with when in {'before', 'after', 'during:<class>'}.
+    """
+
+    def __init__(self, root, crash_at=None, active=False):
+        self.root = str(root)
+        self.crash_at = crash_at
+        self.log = []
+        self.active = active  # events are only counted / crashed while active (set by the harness around the save under test)
+        self.crashed = False
+
+    # -- bookkeeping --------------------------------------------------------------------------------
+    def _event(self, op, path, do, torn=None):
+        if not self.active or self.crashed:
+            return do()
+        idx = len(self.log)
+        self.log.append((op, str(path).replace(self.root, "<dir>")))
+        if self.crash_at and self.crash_at[0] == idx:
+            when = self.crash_at[1]
+            if when == "before":
+                self.crashed = True
+                raise Crash(f"before {op}")
+            if when.startswith("during") and torn is not None:
+                torn(when.split(":", 1)[1])
+                self.crashed = True
+                raise Crash(f"during {op}")
+            out = do()
+            self.crashed = True
+            raise Crash(f"after {op}")
+        return do()
+
+    def _mine(self, path):
+        try:
+            import os
+
+            return os.path.abspath(os.fspath(path)).startswith(self.root)
+        except TypeError:
+            return False
+
+    # -- wrappers -----------------------------------------------------------------------------------
+    def install(self):
+        import builtins
+        import os
+
+        fs = self
+        self._orig = {"open": builtins.open, "rename": os.rename, "replace": os.replace, "remove": os.remove, "unlink": os.unlink}
+        o = self._orig
+
+        class WFile:
+            def __init__(self, path, fh):
+                self._path, self._fh, self._k = path, fh, 0
+
+            def write(self, data):
+                k = self._k
+                self._k += 1
+
+                def torn(cls):
+                    n = len(data)
+                    cut = {"0": 0, "1": min(1, n), "half": n // 2, "allbut1": max(n - 1, 0)}[cls]
+                    self._fh.write(data[:cut])
+                    self._fh.flush()
+
+                return fs._event(f"write#{k}", self._path, lambda: self._fh.write(data), torn=torn)
+
+            def close(self):
+                if self._fh.closed:
+                    return None
+                try:
+                    return fs._event("close", self._path, self._fh.close)
+                finally:
+                    if not self._fh.closed:
+                        self._fh.close()  # a crashed process still has its descriptors closed by the OS (data written so far stays)
+
+            def __enter__(self):
+                return self
+
+            def __exit__(self, et, ev, tb):
+                if et is not None and issubclass(et, Crash):
+                    self._fh.close()
+                    return False
+                self.close()
+                return False
+
+            def __getattr__(self, name):
+                return getattr(self._fh, name)
+
+        def open_(file, mode="r", *a, **k):
+            if isinstance(file, int) or not fs._mine(file) or not any(c in mode for c in "wax+"):
+                return o["open"](file, mode, *a, **k)
+            fh = fs._event("open:" + mode, file, lambda: o["open"](file, mode, *a, **k))
+            return WFile(file, fh)
+
+        def two(name):
+            def f(src, dst, *a, **k):
+                if not (fs._mine(src) or fs._mine(dst)):
+                    return o[name](src, dst, *a, **k)
+                import os as _os
+
+                return fs._event(f"{name}:{_os.path.basename(_os.fspath(src)).split('.')[-1]}->{_os.path.basename(_os.fspath(dst)).split('.')[-1]}", src, lambda: o[name](src, dst, *a, **k))
+
+            return f
+
+        def one(name):
+            def f(path, *a, **k):
+                if not fs._mine(path):
+                    return o[name](path, *a, **k)
+                import os as _os
+
+                return fs._event(f"{name}:{_os.path.basename(_os.fspath(path)).split('.')[-1]}", path, lambda: o[name](path, *a, **k))
+
+            return f
+
+        builtins.open = open_
+        os.rename, os.replace, os.remove, os.unlink = two("rename"), two("replace"), one("remove"), one("unlink")
+
+    def uninstall(self):
+        import builtins
+        import os
+
+        o = self._orig
+        builtins.open = o["open"]
+        os.rename, os.replace, os.remove, os.unlink = o["rename"], o["replace"], o["remove"], o["unlink"]
+
+
+@contextlib.contextmanager
+def fs_interposer(root, crash_at=None):
+    fs = FSInterposer(root, crash_at)
+    fs.install()
+    try:
+        yield fs
+    finally:
+        fs.uninstall()
